@@ -477,8 +477,8 @@ def judge_worlds(chk, worlds):
             line, i_obs = w.records[k]
             if i_obs is None: continue
             m_obs, verdict, self_verdict = [x.strip() for x in model[start + k].split('|')]
-            if self_verdict != 'M:ok' and not (self_verdict == 'M:lost-not-handled' and line.split(' ')[2] == 'C'):
-                # the judge must accept the model itself (non-vacuity), except where model = code departs from the statement
+            if self_verdict != 'M:ok':
+                # the judge must accept the model itself (non-vacuity)
                 diffs.append({'layer': 'judge-rejects-model', 'line': line, 'model_observation': m_obs, 'verdict': self_verdict})
             ctx = {'config': w.cfg, 'driver_lines': [l for l, _ in w.records[:k + 1]][-12:], 'impl_observation': i_obs,
                    'model_observation': m_obs, 'verdict': verdict}
